@@ -155,6 +155,9 @@ def handle (toks : List String) : Option String :=
   | ["point_is_valid", c, x, y, sub] => do
       let c ← parseCurve c; let x ← parseInt x; let y ← parseInt y; let E ← mkExt "-" sub "-"
       some ("ok " ++ (if pointIsValid E c x y then "1" else "0"))
+  | ["vk_from_public_point", c, "inf", "inf", v, sub] => do
+      let c ← parseCurve c; let v ← parseBool v; let E ← mkExt "-" sub "-"
+      some (res showVK (fromPublicPointObj E c none v))
   | ["vk_from_public_point", c, x, y, v, sub] => do
       let c ← parseCurve c; let x ← parseInt x; let y ← parseInt y; let v ← parseBool v; let E ← mkExt "-" sub "-"
       some (res showVK (fromPublicPoint E c x y v))
